@@ -196,12 +196,9 @@ class Sched(object):
     def spawn(self, fn):
         parent = self.cur
         ctl = TCtl(len(self.threads), parent)
-        th = threading.Thread(target=self._boot, args=(ctl, fn))
-        th.daemon = True
-        ctl.thread = th
+        ctl.thread = PoolThread.submit(self._boot, ctl, fn)
         self.threads.append(ctl)
         self.cur = ctl
-        th.start()
         ctl.lock.release()
         self._wait(parent)
         return ctl
@@ -232,6 +229,51 @@ class Sched(object):
 
     def join_thread(self, ctl):
         self.yield_(lambda: ctl.finished, "join worker %d" % ctl.tid)
+
+
+class PoolThread(object):
+    """Re-usable OS threads for the shim workers (thread creation dominates a run)."""
+
+    idle = []
+    pid = None
+
+    def __init__(self):
+        self.wake = threading.Lock()
+        self.wake.acquire()
+        self.done = threading.Lock()
+        self.job = None
+        th = threading.Thread(target=self._loop)
+        th.daemon = True
+        th.start()
+
+    def _loop(self):
+        while True:
+            self.wake.acquire()
+            fn, args = self.job
+            try:
+                fn(*args)
+            finally:
+                self.job = None
+                PoolThread.idle.append(self)
+                self.done.release()
+
+    @classmethod
+    def submit(cls, fn, *args):
+        if cls.pid != os.getpid():      # forked child: the parent's threads do not exist here
+            cls.pid = os.getpid()
+            cls.idle = []
+        pt = cls.idle.pop() if cls.idle else cls()
+        pt.done.acquire()
+        pt.job = (fn, args)
+        pt.wake.release()
+        return pt
+
+    def join(self, timeout):
+        """Wait until the submitted job is over."""
+        if self.done.acquire(timeout=timeout):
+            self.done.release()
+            return True
+        return False
 
 
 CUR = None      # the scheduler of the run in progress
@@ -635,14 +677,14 @@ def judge(case, res):
         v.append(("aborted", {}))
     if res.crashed:
         v.append(("worker-thread-died", dict(threads=res.crashed)))
+    if res.status == "abort":
+        return v       # the run was torn down: what follows would only be noise
     if res.alive:
         v.append(("returned-before-workers-finished", dict(alive=res.alive)))
     if res.unclosed:
         v.append(("file-not-closed", dict(files=res.unclosed)))
     if not case["thread_safe"] and res.n_threads:
         v.append(("workers-used-on-non-thread-safe-fs", dict(threads=res.n_threads)))
-    if res.status == "abort":
-        return v
     fired = res.fired
     if fired is None:
         ref = reference(case)
@@ -918,7 +960,7 @@ def record(st, phase, case, res, viol):
         st.distinct.add(h.digest()[:10])
     if viol:
         st.violations.append((case, realized(res), [k for k, _d in viol]))
-    elif len(st.samples) < 3 and res.n_threads and st.evaluations % 97 == 1:
+    elif len(st.samples) < 2 and res.n_threads and st.evaluations % 97 == 50:
         st.samples.append(dict(function=case["function"], workers=case["workers"],
                                tree=case["tree"], fault=case["fault"], grain=case["grain"],
                                schedule=realized(res)[:60], thread_trace=res.tids[:60],
@@ -927,26 +969,22 @@ def record(st, phase, case, res, viol):
 
 
 def unit_dfs(unit):
-    """One exhaustive / preemption bounded enumeration."""
+    """One exhaustive / preemption bounded enumeration (possibly below a fixed root prefix)."""
     st = Stats()
     case, bound, cap, phase = unit["case"], unit["bound"], unit["cap"], unit["phase"]
     n = 0
     complete = False
-    for res, complete in dfs(case, bound, cap):
+    for res, complete in dfs(case, bound, cap, unit.get("root", ())):
         n += 1
         viol = judge(case, res)
         record(st, phase, case, res, viol)
         if len(st.violations) >= 3:
             break
     c = norm_case(case)
-    if complete:
-        st.exhaustive_cases += 1
-    else:
-        st.capped_cases += 1
     st.dfs_cases.append(dict(function=c["function"], workers=c["workers"],
-                             files=len(c["tree"]["files"]), fault=c["fault"] is not None,
+                             files=len(c["tree"]["files"]), fault=c["fault"], preserve_time=c["preserve_time"],
                              grain=c["grain"], preemption_bound=bound, schedules=n,
-                             complete=complete))
+                             complete=complete, parts=unit.get("parts", 1), id=unit["id"]))
     return st
 
 
@@ -988,18 +1026,36 @@ def unit_random(unit):
 def build_units(tier, seed):
     thorough = tier == "thorough"
     units = []
-    fns_small = ["copy_fs", "mirror", "move_fs"]
+
+    def add_dfs(phase, case, bound, cap, split=False):
+        uid = len(units)
+        if split:
+            # one DFS spread over several processes: fix the first choice points
+            roots = dfs_roots(case, bound, 4)
+            for r in roots:
+                units.append(dict(kind="dfs", phase=phase, case=case, bound=bound, root=r,
+                                  cap=cap, parts=len(roots), id=uid))
+        else:
+            units.append(dict(kind="dfs", phase=phase, case=case, bound=bound, cap=cap, id=uid))
+
     # phase 1: every schedule at queue granularity (put/get/task_done/join, thread join)
-    cap1 = 60000 if thorough else 1500
+    cap1 = 80000 if thorough else 4200
     for ti, tree in enumerate(SMALL_TREES):
+        nf = len(tree["files"])
         for n in (1, 2):
-            for fn in (fns_small if (thorough or ti in (3, 4)) else ["copy_fs"]):
-                case = dict(function=fn, workers=n, tree=tree, chunk=SMALL_CHUNK, grain="queue")
+            if thorough:
+                fns = ["copy_fs", "mirror", "move_fs"] if nf < 3 else \
+                    ["copy_fs", "mirror" if ti == 6 else "move_fs"]
+            else:
+                fns = ["copy_fs", "mirror", "move_fs"] if ti == 3 else ["copy_fs"]
+            for fn in fns:
+                case = dict(function=fn, workers=n, tree=tree, chunk=SMALL_CHUNK, grain="queue",
+                            preserve_time=(fn == "move_fs"))
                 if fn == "mirror":
                     case["dst_pre"] = MIRROR_PRE
-                units.append(dict(kind="dfs", phase="exhaustive-queue", case=case, bound=None,
-                                  cap=cap1))
-            if tree["files"]:
+                add_dfs("exhaustive-queue", case, None, cap1 if nf < 3 or thorough else cap1 // 3,
+                        split=(n == 2 and nf >= 2 and (thorough or nf == 2)))
+            if nf:
                 faults = all_faults(tree, SMALL_CHUNK)
                 if not thorough:
                     rnd = random.Random(seed * 7919 + ti * 31 + n)
@@ -1007,33 +1063,44 @@ def build_units(tier, seed):
                 for f in faults:
                     case = dict(function="copy_fs", workers=n, tree=tree, chunk=SMALL_CHUNK,
                                 grain="queue", fault=f)
-                    units.append(dict(kind="dfs", phase="exhaustive-queue-fault", case=case,
-                                      bound=None, cap=cap1 // 4))
+                    if thorough:
+                        cap = 6000 if nf < 3 else 3000
+                    else:
+                        cap = 400
+                    add_dfs("exhaustive-queue-fault", case, None, cap)
     # phase 2: io granularity (every open/read/write/close is a yield point),
     # all schedules with at most `bound` preemptions
-    bound = 3 if thorough else 2
-    cap2 = 40000 if thorough else 700
     for ti, tree in enumerate(SMALL_TREES[1:], 1):
+        nf = len(tree["files"])
         for n in (1, 2):
-            for fn in (fns_small if thorough else ["copy_fs"]):
+            if thorough:
+                fns = ["copy_fs", "mirror", "move_fs"] if nf < 3 else ["copy_fs"]
+                bound = 3 if nf < 3 or n == 1 else 2
+                cap = 40000
+            else:
+                fns = ["copy_fs"]
+                bound = 2 if nf < 2 or n == 1 else 1
+                cap = 600
+            for fn in fns:
                 case = dict(function=fn, workers=n, tree=tree, chunk=SMALL_CHUNK, grain="io",
                             preserve_time=(ti % 2 == 0))
                 if fn == "mirror":
                     case["dst_pre"] = MIRROR_PRE
-                units.append(dict(kind="dfs", phase="bounded-io", case=case, bound=bound, cap=cap2))
+                add_dfs("bounded-io", case, bound, cap, split=(thorough and n == 2 and nf >= 2))
             faults = all_faults(tree, SMALL_CHUNK)
             if not thorough:
                 rnd = random.Random(seed * 104729 + ti * 31 + n)
                 faults = rnd.sample(faults, min(2, len(faults)))
             for f in faults:
-                for fn in (["copy_fs", "move_fs"] if thorough and n == 2 else ["copy_fs"]):
+                for fn in (["copy_fs", "move_fs"] if thorough and n == 2 and nf == 2
+                           else ["copy_fs"]):
                     case = dict(function=fn, workers=n, tree=tree, chunk=SMALL_CHUNK,
                                 grain="io", fault=f)
-                    units.append(dict(kind="dfs", phase="bounded-io-fault", case=case,
-                                      bound=bound if thorough else 1, cap=cap2 // 8))
+                    add_dfs("bounded-io-fault", case, (2 if nf < 3 else 1) if thorough else 1,
+                            4500 if thorough else 150)
     # phase 3: random schedules, bigger cases
-    total = 260000 if thorough else 5000
-    per = 1000 if thorough else 250
+    total = 260000 if thorough else 12000
+    per = 1000 if thorough else 400
     for i in range(total // per):
         units.append(dict(kind="random", seed=seed * 1000003 + i, count=per, thorough=thorough))
     return units
@@ -1056,7 +1123,7 @@ def explore(tier, seed, procs=None, budget_s=None):
     """Run the whole exploration; returns a merged Stats."""
     units = build_units(tier, seed)
     if procs is None:
-        procs = min(8, os.cpu_count() or 1)
+        procs = min(12, os.cpu_count() or 1)
     if budget_s is None:
         budget_s = 520 if tier == "thorough" else 40
     total = Stats()
@@ -1204,7 +1271,9 @@ def describe(case, schedule):
 
 
 def signature(case, kinds):
-    return "%s workers>0 %s" % (norm_case(case)["function"], "+".join(sorted(kinds)))
+    c = norm_case(case)
+    return "%s workers=%s %s" % (c["function"], "0" if c["workers"] == 0 else "N",
+                                 "+".join(sorted(kinds)))
 
 
 # --------------------------------------------------------------------------- entry points
@@ -1264,18 +1333,48 @@ def report_violations(report, st):
         report.violation(payload)
 
 
+def merge_dfs(dfs_cases):
+    by = {}
+    for d in dfs_cases:
+        e = by.setdefault(d["id"], dict(d, schedules=0, complete=True, seen=0))
+        e["schedules"] += d["schedules"]
+        e["complete"] = e["complete"] and d["complete"]
+        e["seen"] += 1
+    out = []
+    for e in by.values():
+        e["complete"] = e["complete"] and e["seen"] == e["parts"]
+        del e["seen"], e["id"]
+        out.append(e)
+    return out
+
+
+def pick_samples(samples):
+    out = []
+    per = collections.Counter()
+    for smp in sorted(samples, key=lambda x: (-x["workers"], -len(x["tree"]["files"]))):
+        if per[smp["phase"]] < 2:
+            per[smp["phase"]] += 1
+            out.append(smp)
+    return out[:8]
+
+
 def coverage(st, tier):
-    dfs_cases = st.dfs_cases
+    dfs_cases = merge_dfs(st.dfs_cases)
+    done = [d for d in dfs_cases if d["complete"]]
     return dict(
         evaluations=st.evaluations, distinct_nontrivial=len(st.distinct), rule=RULE,
-        samples=st.samples[:6],
+        samples=pick_samples(st.samples),
         schedules_explored=st.evaluations,
         deadlocks=st.deadlocks, timeouts=st.timeouts,
-        dfs_cases_exhausted=st.exhaustive_cases, dfs_cases_capped=st.capped_cases,
-        dfs_schedules_max=max([d["schedules"] for d in dfs_cases] or [0]),
-        dfs_case_examples=sorted(dfs_cases, key=lambda d: -d["schedules"])[:8],
+        dfs_cases=len(dfs_cases), dfs_cases_exhausted=len(done),
+        dfs_cases_capped=len(dfs_cases) - len(done),
+        dfs_schedules_in_exhausted_cases=sum(d["schedules"] for d in done),
+        dfs_largest_exhausted=sorted(done, key=lambda d: -d["schedules"])[:6],
+        dfs_largest_capped=sorted([d for d in dfs_cases if not d["complete"]],
+                                  key=lambda d: -d["schedules"])[:4],
         max_choice_points_in_a_run=st.max_choice_points,
-        units=getattr(st, "units", None), units_skipped_by_time_budget=getattr(st, "units_skipped", 0),
+        units=getattr(st, "units", None),
+        units_skipped_by_time_budget=getattr(st, "units_skipped", 0),
         explore_wall_s=round(getattr(st, "wall", 0.0), 1),
         distribution=dict(workers=dict(st.by_workers), function=dict(st.by_function),
                           fault=dict(st.by_fault), phase=dict(st.by_phase),
@@ -1289,8 +1388,9 @@ def coverage(st, tier):
                           runs_on_empty_tree=st.empty_tree_runs,
                           runs_with_empty_files=st.empty_file_runs),
         exhaustive=False,
-        exhaustive_scope="schedules of the listed small cases whose DFS completed "
-                         "(dfs_cases_exhausted); everything else is sampled")
+        exhaustive_scope="all schedules of the small cases whose DFS completed "
+                         "(dfs_cases_exhausted: queue granularity = every schedule, io granularity "
+                         "= every schedule within the preemption bound); everything else is sampled")
 
 
 def run(report):
